@@ -77,6 +77,32 @@ func buildIR(kind string, ts []types.Type) value.Value {
 	case "atomicrmw":
 		return ir.NewAtomicRMW(enum.AtomicOpAdd, ps[0], ps[1], enum.AtomicOrderingSequentiallyConsistent)
 	case "cast":
+		switch arg {
+		case "trunc":
+			return ir.NewTrunc(ps[0], ts[1])
+		case "zext":
+			return ir.NewZExt(ps[0], ts[1])
+		case "sext":
+			return ir.NewSExt(ps[0], ts[1])
+		case "fptrunc":
+			return ir.NewFPTrunc(ps[0], ts[1])
+		case "fpext":
+			return ir.NewFPExt(ps[0], ts[1])
+		case "fptoui":
+			return ir.NewFPToUI(ps[0], ts[1])
+		case "fptosi":
+			return ir.NewFPToSI(ps[0], ts[1])
+		case "uitofp":
+			return ir.NewUIToFP(ps[0], ts[1])
+		case "sitofp":
+			return ir.NewSIToFP(ps[0], ts[1])
+		case "ptrtoint":
+			return ir.NewPtrToInt(ps[0], ts[1])
+		case "inttoptr":
+			return ir.NewIntToPtr(ps[0], ts[1])
+		case "addrspacecast":
+			return ir.NewAddrSpaceCast(ps[0], ts[1])
+		}
 		return ir.NewBitCast(ps[0], ts[1])
 	case "icmp":
 		return ir.NewICmp(enum.IPredEQ, ps[0], ps[1])
@@ -158,7 +184,11 @@ func asmText(kind string, ts []types.Type, nm map[string]*types.StructType) (str
 		inst = fmt.Sprintf("%%r = atomicrmw add %s, %s seq_cst", tv(0), tv(1))
 	case "cast":
 		skipParam[1] = true
-		inst = fmt.Sprintf("%%r = bitcast %s to %s", tv(0), ts[1])
+		op := arg
+		if op == "" {
+			op = "bitcast"
+		}
+		inst = fmt.Sprintf("%%r = %s %s to %s", op, tv(0), ts[1])
 	case "icmp":
 		inst = fmt.Sprintf("%%r = icmp eq %s, %%p1", tv(0))
 	case "fcmp":
